@@ -1,9 +1,22 @@
 #!/bin/bash
-# Runs every seeded change against its own property's check (and extra related checks), sequentially.
+# Runs every kept seeded change against its own property's check (and extra related checks).
+#   seedall.sh            all seeds, sequentially, on /repo
+#   seedall.sh <k> <n>    lane k of n (seeds with index % n == k); lanes > 0 work on a scratch clone of
+#                         /repo under /tmp (SEED_REPO), which is removed at the end, so that lanes can
+#                         run side by side. /repo itself is only ever touched by lane 0.
 cd /verif
-declare -A EXTRA=( [C01-A]="C13" [C02-A]="C09" [C05-A]="C11" [C07-A]="C11" [C07-B]="C05" [C03-B]="C11" [C11-B]="C03" [C06-A]="C03" [C10-A]="C09" [C14-A]="" )
+k=${1:-0}; n=${2:-1}
+if [ "$k" != "0" ]; then
+  export SEED_REPO=/tmp/seedlane$k.repo
+  rm -rf $SEED_REPO; git clone -q /repo $SEED_REPO || exit 2
+fi
+declare -A EXTRA=( [C01-A]="C13" [C02-A]="C09" [C05-A]="C11" [C07-A]="C11" [C07-B]="C05" [C03-B]="C11" [C10-A]="C09" )
+i=0
 for d in seeded/*/; do
   s=$(basename $d); case $s in _*) continue;; esac
+  i=$((i+1)); [ $((i % n)) = "$k" ] || continue
   p=${s%%-*}
-  tools/seedrun.py $s $p ${EXTRA[$s]} 2>&1 | grep -E "^C[0-9]+ on" 
+  tools/seedrun.py $s $p ${EXTRA[$s]} 2>&1 | grep -E "^C[0-9]+ on|refusing|does not"
 done
+[ "$k" != "0" ] && rm -rf $SEED_REPO
+echo "lane $k done"
